@@ -180,6 +180,97 @@ def prewarm():
     gc.freeze()  # keep the warmed heap out of the children's collections (fewer copy-on-write faults)
 
 
+def isolated_call(fn, arg):
+    """fn(arg) in a forked child of this process; the result comes back pickled. HarnessError/other exceptions of the
+    child are re-raised here as HarnessError."""
+    import pickle
+
+    r, w = os.pipe()
+    sys.stdout.flush()
+    sys.stderr.flush()
+    pid = os.fork()
+    if pid == 0:
+        code = 0
+        try:
+            os.close(r)
+            try:
+                res = ("ok", fn(arg))
+            except BaseException as e:
+                res = ("err", f"{type(e).__name__}: {e}\n{traceback.format_exc()}")
+            with os.fdopen(w, "wb") as f:
+                pickle.dump(res, f)
+        except BaseException:
+            code = 3
+        finally:
+            os._exit(code)
+    os.close(w)
+    with os.fdopen(r, "rb") as f:
+        data = f.read()
+    os.waitpid(pid, 0)
+    if not data:
+        raise HarnessError("isolated call produced no result")
+    tag, val = pickle.loads(data)
+    if tag == "err":
+        raise HarnessError("isolated call failed: " + val)
+    return val
+
+
+def fork_map(fn, items, k):
+    """[fn(x) for x in items], every call in its OWN forked process (a copy of the calling process, which must not
+    have executed the subject itself), k of them at a time; results in item order.  Each of the k lanes owns a
+    runtime-only interpreter (zygote) that its calls share."""
+    import pickle
+
+    items = list(items)
+    if not items:
+        return []
+    k = max(1, min(k, len(items)))
+    lanes = []
+    for j in range(k):
+        r, w = os.pipe()
+        sys.stdout.flush()
+        sys.stderr.flush()
+        pid = os.fork()
+        if pid == 0:
+            code = 0
+            try:
+                os.close(r)
+                from . import sandbox
+
+                sandbox._ZY["proc"] = None  # the parent's interpreter is not shared between lanes
+                try:
+                    sandbox._start_zygote()
+                    out = ("ok", [isolated_call(fn, x) for x in items[j::k]])
+                except BaseException as e:
+                    out = ("err", f"{type(e).__name__}: {e}\n{traceback.format_exc()}")
+                sandbox.shutdown_zygote()
+                with os.fdopen(w, "wb") as f:
+                    pickle.dump(out, f)
+            except BaseException:
+                code = 3
+            finally:
+                os._exit(code)
+        os.close(w)
+        lanes.append((pid, r))
+    res = [None] * len(items)
+    err = None
+    for j, (pid, r) in enumerate(lanes):
+        with os.fdopen(r, "rb") as f:
+            data = f.read()
+        os.waitpid(pid, 0)
+        if not data:
+            err = err or "fork_map lane produced no result"
+            continue
+        tag, val = pickle.loads(data)
+        if tag == "err":
+            err = err or val
+            continue
+        res[j::k] = val
+    if err:
+        raise HarnessError("fork_map: " + err)
+    return res
+
+
 def _run_isolated(mod, case):
     """ISOLATE = True: the case runs in a forked child of this process, and this process itself never runs the
     generator - so every case (and every re-execution of it) starts from the same process state: generator modules
